@@ -64,7 +64,7 @@ func genOutOps(rt *rapid.T, maxOps, maxLen int, pings bool) []outOp {
 	ops := make([]outOp, n)
 	for i := range ops {
 		o := &ops[i]
-		k := rapid.IntRange(0, 15).Draw(rt, "opKind")
+		k := rapid.IntRange(0, 16).Draw(rt, "opKind")
 		switch {
 		case k < 4:
 			o.Kind = "write"
@@ -93,6 +93,13 @@ func genOutOps(rt *rapid.T, maxOps, maxLen int, pings bool) []outOp {
 			if !pings {
 				o.Kind = "writer"
 			}
+		case k == 16:
+			// a Write held up by a zero window, three more Write calls of other goroutines
+			// queued behind it, then the window opens
+			o.Kind = "cburst"
+			if !pings {
+				o.Kind = "write"
+			}
 		default:
 			// a Write held up after StallAt bytes: the caller's buffer is looked at while
 			// the call is blocked; the last op of a program may then lose its transport
@@ -112,7 +119,7 @@ func genOutOps(rt *rapid.T, maxOps, maxLen int, pings bool) []outOp {
 		o.CKind = rapid.IntRange(0, numContentKinds-1).Draw(rt, "ckind")
 		o.Seed = rapid.Uint64().Draw(rt, "seed")
 		o.Len = genLen(rt, maxLen, "len")
-		if o.Kind == "burst" {
+		if o.Kind == "burst" || o.Kind == "cburst" {
 			o.Len = rapid.SampledFrom([]int{0, 100, 5000, 9000, 70000}).Draw(rt, "burstLen")
 			if o.Len > maxLen {
 				o.Len = maxLen
@@ -325,6 +332,54 @@ func doBurst(e *env, lc *libConn, o outOp, payload []byte) error {
 	return nil
 }
 
+// cburstExtra: the payloads of the three Write calls that queue behind a held-up one.
+func cburstExtra(o outOp) [3][]byte {
+	var x [3][]byte
+	for j := range x {
+		x[j] = expand(j%numContentKinds, o.Seed+uint64(j)+7, []int{30, 700, 5000}[(int(o.Seed%3)+j)%3]+j)
+	}
+	return x
+}
+
+// doCBurst: a Write is held up by a zero window while it holds the message lock, three
+// more Write calls (other goroutines) queue up behind it, then the window opens. Each
+// of them must get the connection to itself for its message.
+func doCBurst(e *env, lc *libConn, o outOp, payload []byte) error {
+	ctx := context.Background()
+	typ := websocket.MessageBinary
+	if o.Text {
+		typ = websocket.MessageText
+	}
+	lc.End.SetInBudget(0)
+	var werr error
+	var xerr [3]error
+	x := cburstExtra(o)
+	wd := e.Call(func() { werr = lc.C.Write(ctx, typ, payload) })
+	synctest.Wait()
+	var xd [3]<-chan struct{}
+	for j := range xd {
+		j := j
+		xd[j] = e.Call(func() { xerr[j] = lc.C.Write(ctx, websocket.MessageBinary, x[j]) })
+		synctest.Wait()
+	}
+	lc.End.SetInBudget(-1)
+	if !within(wd, 60*time.Second) {
+		return fmt.Errorf("Write did not finish within 60 s after the window opened")
+	}
+	if werr != nil {
+		return werr
+	}
+	for j := range xd {
+		if !within(xd[j], 60*time.Second) {
+			return fmt.Errorf("queued Write %d did not finish within 60 s", j)
+		}
+		if xerr[j] != nil {
+			return fmt.Errorf("queued Write %d: %w", j, xerr[j])
+		}
+	}
+	return nil
+}
+
 // doStall: the peer accepts only o.Chunks[0] more bytes. While the Write is blocked
 // the caller's buffer must look as it was handed over; then the window opens
 // (wstall) or the peer drops the connection (wfail: the Write fails, and the buffer
@@ -375,7 +430,10 @@ type c02Result struct {
 	Deflate       bool
 }
 
-func runC02(t fataler, mode c03Mode, threshold int, ops []outOp, closeCode int, closeReason string, doClose bool, storm bool) (string, c02Result) {
+// peerClose (non-nil): instead of the program calling Close, the peer sends a Close frame
+// with this payload after the last op (any code, also ones an endpoint must not send, or a
+// malformed payload): the library's answer is a Close frame too, and underlies the same rules.
+func runC02(t fataler, mode c03Mode, threshold int, ops []outOp, closeCode int, closeReason string, doClose bool, storm bool, peerClose []byte) (string, c02Result) {
 	var res c02Result
 	e := newEnv(t)
 	defer e.Teardown()
@@ -394,7 +452,9 @@ func runC02(t fataler, mode c03Mode, threshold int, ops []outOp, closeCode int, 
 		case ref.OpPing:
 			p.send(ref.Frame{Fin: true, Opcode: ref.OpPong, Payload: f.Payload})
 		case ref.OpClose:
-			p.send(ref.Frame{Fin: true, Opcode: ref.OpClose, Payload: f.Payload})
+			if peerClose == nil {
+				p.send(ref.Frame{Fin: true, Opcode: ref.OpClose, Payload: f.Payload})
+			}
 		}
 	}
 	p.start(e)
@@ -402,7 +462,7 @@ func runC02(t fataler, mode c03Mode, threshold int, ops []outOp, closeCode int, 
 	defer lastWriters.Delete(conn)
 	ctx := context.Background()
 	// a library reader so that Pongs are consumed
-	e.Go(func() {
+	readerDone := e.Call(func() {
 		for {
 			if _, _, err := conn.Read(ctx); err != nil {
 				return
@@ -412,6 +472,7 @@ func runC02(t fataler, mode c03Mode, threshold int, ops []outOp, closeCode int, 
 	type sent struct {
 		typ     byte
 		payload []byte
+		group   int // > 0: written by concurrent calls, any order within the group
 	}
 	var want []sent
 	nPings := 0
@@ -424,6 +485,8 @@ func runC02(t fataler, mode c03Mode, threshold int, ops []outOp, closeCode int, 
 			var err error
 			if o.Kind == "burst" {
 				err = doBurst(e, lc, o, payload)
+			} else if o.Kind == "cburst" {
+				err = doCBurst(e, lc, o, payload)
 			} else if o.Kind == "wstall" || o.Kind == "wfail" {
 				var lost bool
 				lost, err = doStall(e, lc, o, payload, keep)
@@ -457,13 +520,24 @@ func runC02(t fataler, mode c03Mode, threshold int, ops []outOp, closeCode int, 
 				if o.Text {
 					typ = ref.OpText
 				}
-				want = append(want, sent{typ, keep})
+				want = append(want, sent{typ, keep, 0})
 				if o.Kind == "wlock" {
-					want = append(want, sent{ref.OpBinary, wlockExtra(o)})
+					want = append(want, sent{ref.OpBinary, wlockExtra(o), 0})
+				}
+				if o.Kind == "cburst" {
+					for _, x := range cburstExtra(o) {
+						want = append(want, sent{ref.OpBinary, x, i + 1})
+					}
 				}
 			}
 		}
-		if doClose {
+		if peerClose != nil {
+			p.send(ref.Frame{Fin: true, Opcode: ref.OpClose, Payload: peerClose})
+			if !within(readerDone, 60*time.Second) {
+				opErr = "the reader did not fail within 60 s of the peer's Close frame"
+			}
+			conn.CloseNow()
+		} else if doClose {
 			conn.Close(websocket.StatusCode(closeCode), closeReason)
 		} else {
 			conn.Close(websocket.StatusNormalClosure, "")
@@ -509,7 +583,29 @@ func runC02(t fataler, mode c03Mode, threshold int, ops []outOp, closeCode int, 
 	if len(rep.Messages) != len(want) {
 		return fmt.Sprintf("stream carries %d messages, %d were written", len(rep.Messages), len(want)), res
 	}
-	for i := range want {
+	for i := 0; i < len(want); i++ {
+		if g := want[i].group; g > 0 {
+			// the messages of concurrent Write calls: each arrives exactly once, in any order
+			j := i
+			for j < len(want) && want[j].group == g {
+				j++
+			}
+			used := make([]bool, j-i)
+			for k := i; k < j; k++ {
+				found := false
+				for m := i; m < j; m++ {
+					if !used[m-i] && rep.Messages[k].Type == want[m].typ && bytes.Equal(rep.Messages[k].Payload, want[m].payload) {
+						used[m-i], found = true, true
+						break
+					}
+				}
+				if !found {
+					return fmt.Sprintf("message %d on the wire (%d bytes) is none of the %d messages that concurrent Write calls wrote (or one of them twice)", k, len(rep.Messages[k].Payload), j-i), res
+				}
+			}
+			i = j - 1
+			continue
+		}
 		if rep.Messages[i].Type != want[i].typ {
 			return fmt.Sprintf("message %d: type %d on the wire, %d written", i, rep.Messages[i].Type, want[i].typ), res
 		}
@@ -524,6 +620,9 @@ func runC02(t fataler, mode c03Mode, threshold int, ops []outOp, closeCode int, 
 		return "frames of this connection carry a masking key that an earlier frame already used (twice or more in this program)", res
 	}
 	if len(rep.Closes) == 0 {
+		if peerClose != nil {
+			return "no Close frame on the wire in answer to the peer's Close frame", res
+		}
 		if !doClose || ref.Sendable(closeCode) && len(closeReason) <= 123 || closeCode == 1005 {
 			return "no Close frame on the wire after Close()", res
 		}
@@ -570,12 +669,25 @@ func TestC02(t *testing.T) {
 				reason = string(b[:rl])
 			}
 		}
+		var peerClose []byte
+		if !doClose && rapid.IntRange(0, 2).Draw(rt, "peerCloses") == 0 {
+			pc := rapid.OneOf(rapid.SampledFrom([]int{1000, 1001, 1005, 1006, 1015, 1016, 2000, 2999, 3000, 4999, 5000, 999, 0, 65535}), rapid.IntRange(1012, 3001), rapid.IntRange(0, 65535)).Draw(rt, "peerCloseCode")
+			prl := rapid.SampledFrom([]int{0, 0, 1, 50, 122, 123}).Draw(rt, "peerReasonLen")
+			switch rapid.IntRange(0, 7).Draw(rt, "peerCloseShape") {
+			case 0:
+				peerClose = []byte{} // no status
+			case 1:
+				peerClose = []byte{byte(pc >> 8)} // malformed: one byte
+			default:
+				peerClose = append([]byte{byte(pc >> 8), byte(pc)}, c06Reason(prl, pc)...)
+			}
+		}
 		var msg string
 		var res c02Result
 		rapid.SyncTest(rt, func(rt *rapid.T) {
-			msg, res = runC02(rt, mode, th, ops, code, reason, doClose, storm)
+			msg, res = runC02(rt, mode, th, ops, code, reason, doClose, storm, peerClose)
 		})
-		shape := fmt.Sprintf("%s|%d|%v%d|%v", mode.Name, th, doClose, code, storm)
+		shape := fmt.Sprintf("%s|%d|%v%d|%v|%v", mode.Name, th, doClose, code, storm, peerClose != nil)
 		for _, o := range ops {
 			shape += fmt.Sprintf("|%s%d/%d/%d", o.Kind, o.CKind, lenClass(o.Len), len(o.Chunks))
 		}
@@ -597,6 +709,9 @@ func TestC02(t *testing.T) {
 				classes = append(classes, "control-frame-right-after-first-frame-of-compressed-message")
 			}
 		}
+		if peerClose != nil {
+			classes = append(classes, "ended-by-peer-close-frame")
+		}
 		if res.Asymmetric {
 			nt = true
 			classes = append(classes, "asymmetric-agreement")
@@ -606,7 +721,7 @@ func TestC02(t *testing.T) {
 			rec.Sample(map[string]any{"mode": mode.Name, "threshold": th, "ops": fmt.Sprint(ops), "ping_storm": storm, "close": doClose, "code": code, "reason_len": len(reason)})
 		}
 		if msg != "" {
-			rt.Fatalf("C02 mode=%s threshold=%d ops=%v close=%v/%d/%d pingStorm=%v: %s", mode.Name, th, ops, doClose, code, len(reason), storm, msg)
+			rt.Fatalf("C02 mode=%s threshold=%d ops=%v close=%v/%d/%d pingStorm=%v peerClose=%x: %s", mode.Name, th, ops, doClose, code, len(reason), storm, peerClose, msg)
 		}
 	})
 }
